@@ -36,6 +36,7 @@ def run(ctx, rep):
             rep.ob('R4.2', f'{k}:independent-of-school', ('asr_shadow_ratio',) not in reads, f'{k} reads {sorted(reads)}')
     ok, detail = c05.orientation(c, 'Asr', +1)
     rep.ob('R4.3', 'Asr:orientation', ok, detail)
+    c05.check_hour_per_degree(c, rep, 'R4.3', 'Asr')
     if ks:
         env = S.env_for(pay)
         env[ks[0]] = (1.0, 2.0)
